@@ -47,6 +47,8 @@ func genC03(t *rapid.T) WorldCase {
 	c := WorldCase{Params: ctlsim.Params{
 		Shards:         rapid.SampledFrom([]int{0, 0, 2}).Draw(t, "shards"),
 		DefaultBackend: rapid.SampledFrom([]string{"", "", "a/s1", "b/s2", "a/s9"}).Draw(t, "defback"),
+		// --enable-endpointslices-api: the endpoints are published (and read) as EndpointSlice objects
+		EPSlices: chanceT(t, "epslices", 25),
 	}}
 	for _, o := range g.W.List() {
 		c.Objs = append(c.Objs, o.Clone())
